@@ -20,7 +20,14 @@ Definition case10 := (cfs * cdoc * cdoc * cop * cfs * cdoc * cdoc * out cbytes)%
 Definition has_twin (d : cdoc) : bool := negb (is_nil_parts d).
 
 (* C04.  1: PkgOK lost (the model keeps it)   2: saved zip has not the required shape   3: manifest entry list differs
-   from the model's   4: result differs   5: duplicate dict keys (abstraction broken)   9: exact state differs (fidelity) *)
+   from the model's   4: result differs   5: duplicate dict keys (abstraction broken)   7: save deleted a listed manifest.rdf and kept its entry (F42)
+   8: bookkeeping invariant lost   9: exact state differs (fidelity) *)
+(* F42: save deleted a manifest.rdf that the manifest lists (with an empty media type) and kept the entry *)
+Definition rdf_entry_dangling (fs : cfs) (d : cdoc) (o : cop) (fs' : cfs) (d' : cdoc) : bool :=
+  match is_save o, cview fs d RDF, cview fs' d' RDF with
+  | Some _, Some _, None => memz RDF (declared (entries_of fs' d'))
+  | _, _, _ => false
+  end.
 Definition chk04 (c : case) : nat :=
   let '(fs, d, o, fs', d', r) := c in
   let '((fsm, dm), rm) := cstep FIXED (fs, d) o in
@@ -33,6 +40,7 @@ Definition chk04 (c : case) : nat :=
   else if negb (ents_eqb (entries_of fs' d') (entries_of fsm dm)) then 3
   else if negb (out_eqb r rm) then 4
   else if wf_lost fsm dm fs' d' then 8
+  else if rdf_entry_dangling fs d o fs' d' then 7
   else if doc_eqb d' dm && file_eqb (written fs' o) (written fsm o) then 0 else 9.
 
 (* C03.  1: the part map after the operation is not the model's   2: the bytes returned by get_part differ
